@@ -200,6 +200,8 @@ class Concretizer:
                 return {'t': 'ref', 'addr': v.addr}
             return self.enc(cell, heap)
         if isinstance(v, VOpaque):
+            if abstract_const(v.z):
+                return {'t': 'any'}
             val = self.ev(v.z)
             j = {'t': 'opaque', 'name': str(val), 'sort': v.sortname}
             try:
